@@ -35,6 +35,17 @@ def setCount (cache : List (C × Nat)) (c : C) (n : Nat) : List (C × Nat) :=
   if cache.any (fun p => p.1.eq c) then cache.map (fun p => if p.1.eq c then (p.1, n) else p) else cache ++ [(c, n)]
 def delCount (cache : List (C × Nat)) (c : C) : List (C × Nat) := cache.filter fun p => !(p.1.eq c)
 
+/-- `_UtilityRegistrations.__cache_utility`: one more for `(provided, component)`; an unhashable component switches the
+`provided` entry to the non-hashing counter -/
+def cacheUtility (uc : AList Id (List (C × Nat) × Bool)) (p : Id) (c : C) : AList Id (List (C × Nat) × Bool) :=
+  let (cache, unh) := (AList.get? uc p).getD ([], false)
+  AList.set uc p (setCount cache c (count cache c + 1), unh || !c.hashable)
+
+/-- `_UtilityRegistrations.__populate_cache`: the counter cache is volatile (`_v_utility_registrations_cache`, not pickled,
+dropped by `__init__`); when it has gone away it is rebuilt from the listing, one count per `(provided, name)` entry -/
+def populateCache (regs : AList (Id × String) (C × String)) : AList Id (List (C × Nat) × Bool) :=
+  regs.foldl (fun uc e => cacheUtility uc e.1.1 e.2.1) []
+
 /-- `_UtilityRegistrations.registerUtility` -/
 def cacheRegister (s : Comp) (p : Id) (name : String) (c : C) (info : String) : Comp :=
   let (cache, unh) := (AList.get? s.ucache p).getD ([], false)
@@ -43,8 +54,7 @@ def cacheRegister (s : Comp) (p : Id) (name : String) (c : C) (info : String) : 
   let s := { s with utilRegs := AList.set s.utilRegs (p, name) (c, info) }
   let s := { s with w := register FUEL s.w UT [] p name c.v }
   let s := if subscribed then s else { s with w := subscribe FUEL s.w UT [] (some p) c.v }
-  let unh := unh || !c.hashable
-  { s with ucache := AList.set s.ucache p (setCount cache c (count cache c + 1), unh) }
+  { s with ucache := cacheUtility s.ucache p c }
 
 /-- `_UtilityRegistrations.unregisterUtility`; `none` = TypeError raised half-way (finding 12) -/
 def cacheUnregister (s : Comp) (p : Id) (name : String) (c : C) : Comp × Bool :=
@@ -109,6 +119,28 @@ def unregisterHandler (s : Comp) (f : Option C) (req : List Id) : Comp × String
   if new.length == s.handlerRegs.length then (s, "False", []) else
   let s := { s with handlerRegs := new }
   ({ s with w := unsubscribe FUEL s.w AD (req.map some) none (f.map (·.v)) }, "True", [.unregistered "Handler"])
+
+/-- `__setstate__` of a picklable adapter registry (zope.component.persistentregistry, the library's own
+`PersistentAdapterRegistry` test double): `_adapters`, `_subscribers`, `_provided`, `__bases__` come back from the pickle,
+the lookup object is created anew (empty caches, `init_extendors()` over `_provided` in its order), then `__bases__` is
+assigned again -/
+def reloadRegistry (w : World) (r : Nat) : World :=
+  let x := { clearCaches (w.reg r) with extendors := [] }
+  let x := x.provided.foldl (fun x e => addExtendor w x e.1) x
+  setBases FUEL (w.setReg r x) r x.bases
+
+/-- a pickle round trip of a picklable `Components` (`__reduce__` elides the `_v_` attributes): the four listings and both
+registries survive, the lookup objects and the utility counter cache are rebuilt -/
+def reload (s : Comp) : Comp :=
+  { s with w := reloadRegistry (reloadRegistry s.w UT) AD, ucache := populateCache s.utilRegs }
+
+/-- `Components.__init__` run again on a live object (zope.component.testing does this): new empty registries, empty
+listings, no counter cache -/
+def reinit (s : Comp) : Comp :=
+  let w : World := { s.w with regs := [] }
+  let w := setBases FUEL (w.setReg UT {}) UT []
+  let w := setBases FUEL (w.setReg AD {}) AD []
+  { w := w }
 
 /-- `rebuildUtilityRegistryFromLocalCache()` (probe only): (needed_registered, needed_subscribed) -/
 def probe (s : Comp) : Nat × Nat :=
